@@ -241,7 +241,122 @@ def calc_events(body, fb):
     return ev, loopvar
 
 
+class _CalcUnknown(Exception):
+    pass
+
+
+def _calc_eval(o, env):
+    """finite-domain evaluation of a branch condition of area::calc.  env: node kind ('Val'/'Nil'), type_ (int),
+    cmp (None / 'Less' / 'Equal' / 'Greater': the outcome of comparing the popped value with the count)"""
+    ORD = {"Less": -1, "Equal": 0, "Greater": 1}
+    k = o[0]
+    if k == "role" and o[1] == "NODE":
+        return ("node",)
+    if k == "const":
+        return o[2]
+    if k == "promoted":
+        pb = getattr(env.get("fb"), "promoted", {}).get((o[1], o[2]))
+        if pb is None:
+            raise _CalcUnknown("promoted constant")
+        po = Origins(pb, env["fb"])
+        last = max(i for i, blk in enumerate(pb.blocks) if blk["term"]["k"] == "return")
+        return _calc_eval(po.of_local(0, last, "t"), env)
+    if k in ("clone", "ref", "deref"):
+        return _calc_eval(o[-1], env)
+    if k == "cast":
+        return _calc_eval(o[3], env)
+    if k == "variant":
+        v = _calc_eval(o[2], env)
+        if v == ("node",) and o[1] == "Val":
+            return ("val",)
+        if isinstance(v, tuple) and v[0] == "opt" and o[1] == "Some":
+            return ("some", v[1])
+        raise _CalcUnknown("variant %s" % (o[1],))
+    if k == "some":
+        v = _calc_eval(o[1], env)
+        if isinstance(v, tuple) and v[0] == "opt" and v[1] is not None:
+            return ("ord", v[1])
+        raise _CalcUnknown("payload of %r" % (v,))
+    if k == "field":
+        v = _calc_eval(o[2], env)
+        if v == ("val",) and o[1] == "type_":
+            return env["type"]
+        if isinstance(v, tuple) and v[0] == "some" and str(o[1]) == "0":
+            return ("ord", v[1])
+        raise _CalcUnknown("field %s" % (o[1],))
+    if k == "discr":
+        v = _calc_eval(o[1], env)
+        if v == ("node",):
+            return 0 if env["kind"] == "Val" else 1
+        if isinstance(v, tuple) and v[0] == "opt":
+            return 0 if v[1] is None else 1
+        if isinstance(v, tuple) and v[0] == "ord":
+            return ORD[v[1]] % 256
+        raise _CalcUnknown("discriminant of %r" % (v,))
+    if k == "agg":
+        nm = o[1].rsplit("::", 1)[-1]
+        if nm == "Some":
+            v = _calc_eval(o[2][0], env)
+            return ("opt", v[1]) if isinstance(v, tuple) and v[0] == "ord" else ("optv", v)
+        if nm == "None":
+            return ("opt", None)
+        if nm in ORD:
+            return ("ord", nm)
+        raise _CalcUnknown("aggregate %s" % o[1])
+    if k == "bin":
+        x, y = _calc_eval(o[2], env), _calc_eval(o[3], env)
+        if isinstance(x, tuple) and x[0] == "ord":
+            x = ORD[x[1]]
+        if isinstance(y, tuple) and y[0] == "ord":
+            y = ORD[y[1]]
+        if isinstance(x, int) and isinstance(y, int):
+            if o[1] in ("Eq", "Ne") and (x > 127 or y > 127):
+                x, y = x % 256, y % 256
+            return {"Eq": x == y, "Ne": x != y, "Lt": x < y, "Le": x <= y, "Gt": x > y, "Ge": x >= y}[o[1]]
+        raise _CalcUnknown("operator %s" % o[1])
+    if k == "un" and o[1] == "Not":
+        return not _calc_eval(o[2], env)
+    if k == "call":
+        nm = o[1]
+        sn = nm.rsplit("::", 1)[-1]
+        is_pop = lambda x: isinstance(x, tuple) and ((x[0] in ("try", "unwrap", "ok") and is_pop(x[1])) or (x[0] == "call" and x[1].endswith("call_mut")))
+        is_cnt = lambda x: isinstance(x, tuple) and x[0] == "call" and x[1].endswith("Num::from_num")
+        if sn in ("partial_cmp", "lt", "le", "gt", "ge", "eq", "ne") and len(o[2]) == 2:
+            l, r = o[2]
+            while isinstance(l, tuple) and l[0] in ("ref", "deref", "clone"):
+                l = l[-1]
+            while isinstance(r, tuple) and r[0] in ("ref", "deref", "clone"):
+                r = r[-1]
+            flip = False
+            if is_cnt(l) and is_pop(r):
+                l, r, flip = r, l, True
+            if is_pop(l) and is_cnt(r):
+                c = env["cmp"]
+                if flip and c in ("Less", "Greater"):
+                    c = "Greater" if c == "Less" else "Less"
+                if sn == "partial_cmp":
+                    return ("opt", c)
+                return {"lt": c == "Less", "le": c in ("Less", "Equal"), "gt": c == "Greater", "ge": c in ("Greater", "Equal"), "eq": c == "Equal", "ne": c != "Equal"}[sn]
+            if sn in ("eq", "ne"):
+                x, y = _calc_eval(o[2][0], env), _calc_eval(o[2][1], env)
+                return (x == y) if sn == "eq" else (x != y)
+        if sn in ("is_lt", "is_le", "is_gt", "is_ge", "is_eq", "is_ne") and len(o[2]) == 1:
+            v = _calc_eval(o[2][0], env)
+            if isinstance(v, tuple) and v[0] == "ord":
+                c = ORD[v[1]]
+                return {"is_lt": c < 0, "is_le": c <= 0, "is_gt": c > 0, "is_ge": c >= 0, "is_eq": c == 0, "is_ne": c != 0}[sn]
+        if sn in ("is_some", "is_none") and len(o[2]) == 1:
+            v = _calc_eval(o[2][0], env)
+            if isinstance(v, tuple) and v[0] == "opt":
+                return (v[1] is not None) == (sn == "is_some")
+        raise _CalcUnknown("call of %s" % nm)
+    raise _CalcUnknown("origin %s" % k)
+
+
 def rule_calc(ctx, R):
+    """area::calc as a decision table: one step of the descent, for every kind of node and every outcome of the
+    comparison (finite-domain evaluation of the branch conditions along path-precise origins)"""
+    from .paths import acyclic_paths, PathOriginsOv, simplify
     fb = ctx.fb
     body = fb.bodies.get(CALC)
     if not R.anchor(body is not None, "calc", "area::calc"):
@@ -252,41 +367,87 @@ def rule_calc(ctx, R):
         return
     ev, loopvar = r
     cfg = normal_cfg(body)
-    d = language(body, fb, cfg, 0, cfg.returns, ev, stop_at_exit=False)
-    cmp_ = "core::cmp::PartialOrd::partial_cmp(TRY(FnMut::call_mut(POPFN,tuple{})),NUM(COUNT))"
-    cmp_ = "PartialOrd::partial_cmp(TRY(FnMut::call_mut(POPFN,tuple{})),NUM(COUNT))"
-    T = "NODE@Val.type_"
-
-    def branch(ordv):
-        # Option<Ordering>: Some(ord) with ord == ordv -> left, everything else (None, other orderings) -> right
-        return Seq(
-            "FnMut::call_mut(POPFN,tuple{})",
-            Alt(
-                Seq("SW[DISCR(%s)]=1" % cmp_, Alt(Seq("SW[DISCR(SOME(%s))]=%s" % (cmp_, ordv), "DESCEND(left,NODE@Val)"), Seq("SW[DISCR(SOME(%s))]!=%s" % (cmp_, ordv), "DESCEND(right,NODE@Val)"))),
-                Seq("SW[DISCR(%s)]=0" % cmp_, "DESCEND(right,NODE@Val)"),
-            ),
-        )
-
-    def branch_eq(name):
-        e1 = "BR[PartialEq::eq(%s,Option::Some{Ordering::%s{}})]" % (cmp_, name)
-        e2 = "BR[PartialEq::eq(Option::Some{Ordering::%s{}},%s)]" % (name, cmp_)
-        return [Seq("FnMut::call_mut(POPFN,tuple{})", Alt(Seq(e + "=1", "DESCEND(left,NODE@Val)"), Seq(e + "=0", "DESCEND(right,NODE@Val)"))) for e in (e1, e2)]
-
-    def mk(b0, b1):
-        return Seq(
-            Star("SW[DISCR(NODE)]=0", Alt(Seq("EQ[K0,%s]=1" % T, b0), Seq("EQ[K0,%s]=0" % T, "EQ[K1,%s]=1" % T, b1))),
-            Alt(Seq("SW[DISCR(NODE)]=0", "EQ[K0,%s]=0" % T, "EQ[K1,%s]=0" % T, "RET(Result::Ok{%s})" % T), Seq("SW[DISCR(NODE)]=1", "RET(Result::Ok{K0})")),
-        )
-
-    variants = [mk(branch("255"), branch("0"))] + [mk(a, b_) for a, b_ in zip(branch_eq("Less"), branch_eq("Equal"))]
-    spec = Seq(
-        Star(
-            "SW[DISCR(NODE)]=0",
-            Alt(Seq("EQ[K0,%s]=1" % T, branch("255")), Seq("EQ[K0,%s]=0" % T, "EQ[K1,%s]=1" % T, branch("0"))),
-        ),
-        Alt(Seq("SW[DISCR(NODE)]=0", "EQ[K0,%s]=0" % T, "EQ[K1,%s]=0" % T, "RET(Result::Ok{%s})" % T), Seq("SW[DISCR(NODE)]=1", "RET(Result::Ok{K0})")),
-    )
-    check_lang_any(R, "calc:language", "area::calc (? -> Less selects left, ! -> Equal selects left, NaN/other -> right, leaf -> its type, Nil -> 0)", d, variants, body.span)
+    heads = sorted({h for (_, h) in cfg.back_edges()})
+    if not R.anchor(len(heads) == 1, "calc:loop", "the descent loop of area::calc"):
+        return
+    head = heads[0]
+    ov = {loopvar: ("role", "NODE")}
+    paths = []
+    for s_ in cfg.succ[head] if body.blocks[head]["term"]["k"] != "switch" else [head]:
+        pass
+    # one step: from the loop head back to the loop head, or to a return
+    steps = []
+    loops_back = set()
+    for p in acyclic_paths(cfg, head, cfg.returns, 4000):
+        steps.append(p)
+    for (src, h) in cfg.back_edges():
+        # paths head -> src; the back edge follows (the head is not appended: the path-precise origins key
+        # positions by block)
+        for p in acyclic_paths(cfg, head, [src], 4000):
+            if head not in p[1:]:
+                steps.append(p)
+                loops_back.add(tuple(p))
+    R.floor("calc_step_paths", len(steps), 6, "paths of one descent step")
+    table, problems = {}, []
+    domain = [("Nil", None, None)] + [("Val", t, c) for t in (0, 1, 2, 13) for c in (None, "Less", "Equal", "Greater")]
+    for kind, ty, c in domain:
+        env = {"kind": kind, "type": ty, "cmp": c, "fb": fb}
+        rows = set()
+        for p in steps:
+            org = PathOriginsOv(body, fb, p, overrides=ov)
+            roles = Roles(body, fb, param_roles={1: "ROOT", 2: "COUNT", 3: "POPFN"}, org=org)
+            feasible = True
+            try:
+                for i, bi in enumerate(p[:-1]):
+                    t = body.blocks[bi]["term"]
+                    if t["k"] != "switch" or "desugar:QuestionMark" in t["span"]["exp"]:
+                        if t["k"] == "switch":
+                            # `?` on the popped value: the error edge is not part of the table
+                            nxt_ok = [bb for v_, bb in t["arms"] if v_ == "0"]
+                            if nxt_ok and p[i + 1] != nxt_ok[0]:
+                                feasible = False
+                                break
+                        continue
+                    v = _calc_eval(simplify(org.of_operand(t["x"], bi, "t")), env)
+                    v = int(v) if isinstance(v, bool) else v
+                    if not isinstance(v, int):
+                        raise _CalcUnknown("branch on %r" % (v,))
+                    taken = None
+                    for a_, bb in t["arms"]:
+                        if int(a_) == v:
+                            taken = bb
+                    if taken is None:
+                        taken = t["otherwise"]
+                    if taken != p[i + 1]:
+                        feasible = False
+                        break
+                if not feasible:
+                    continue
+                pops = sum(1 for bi in p if body.blocks[bi]["term"]["k"] == "call" and callee_name(body.blocks[bi]["term"]["f"], fb).endswith("call_mut"))
+                if tuple(p) in loops_back:
+                    # where the cursor goes: its last assignment on the path
+                    nxt = None
+                    for bi in p:
+                        for si, st in enumerate(body.blocks[bi]["stmts"]):
+                            if st["k"] == "assign" and not st["p"]["proj"] and st["p"]["l"] == loopvar:
+                                o = org.of_rvalue(st["r"], bi, si)
+                                while o[0] == "field" and o[1] in ("0", "pointer"):
+                                    o = o[2]
+                                nxt = roles.of_origin(o)
+                    rows.add((pops, "GOTO(%s)" % nxt))
+                else:
+                    rows.add((pops, "RET(%s)" % roles.of_origin(org.of_place({"l": 0, "proj": []}, p[-1], "t"))))
+            except _CalcUnknown as e:
+                problems.append("%s/%s/%s: %s" % (kind, ty, c, e))
+        table[(kind, ty, c)] = rows
+    want = {("Nil", None, None): {(0, "RET(Result::Ok{K0})")}}
+    for c in (None, "Less", "Equal", "Greater"):
+        want[("Val", 0, c)] = {(1, "GOTO(NODE@Val.left)" if c == "Less" else "GOTO(NODE@Val.right)")}
+        want[("Val", 1, c)] = {(1, "GOTO(NODE@Val.left)" if c == "Equal" else "GOTO(NODE@Val.right)")}
+        for t in (2, 13):
+            want[("Val", t, c)] = {(0, "RET(Result::Ok{NODE@Val.type_})")}
+    bad = {str(k): sorted(v) for k, v in table.items() if v != want[k]}
+    R.check(not problems and not bad, "calc:table", "area::calc, one step: Nil -> 0; a leaf -> its type; `?` pops once and goes left exactly when the popped value compares Less than the count; `!` pops once and goes left exactly when it compares Equal; an unordered (NaN) comparison goes right", body.span, {"differs": bad, "undecided": problems[:4]})
 
 
 def rule_push(ctx, R):
@@ -321,20 +482,31 @@ def rule_pop(ctx, R):
     # (1) the returning paths: stack 0 (refill then pop) and the ordinary stacks
     d = language(body, fb, cfg, 0, cfg.returns, ev, stop_at_exit=False)
     line = "TRY(io::read_line_from(IN))"
-    spec = Alt(
-        Seq(
-            "SW[LOC]=0",
-            "State::get_stack(STATE,K0)",
-            Alt(
-                Seq("BR[Vec::is_empty(State::get_stack(STATE,K0))]=0"),
-                Seq("BR[Vec::is_empty(State::get_stack(STATE,K0))]=1", "io::read_line_from(IN)", "ITER(REV(CHARS(%s)))" % line, Star("PUSHSTATE(K0,NUM(ELEM))")),
+    def pop_spec(idx0):
+        # inside the arm for stack 0 the index may be written as the constant or as the (equal) parameter
+        return Alt(
+            Seq(
+                "SW[LOC]=0",
+                "State::get_stack(STATE,%s)" % idx0,
+                Alt(
+                    Seq("BR[Vec::is_empty(State::get_stack(STATE,%s))]=0" % idx0),
+                    Seq("BR[Vec::is_empty(State::get_stack(STATE,%s))]=1" % idx0, "io::read_line_from(IN)", "ITER(REV(CHARS(%s)))" % line, Star("PUSHSTATE(%s,NUM(ELEM))" % idx0)),
+                ),
+                "POPSTATE(%s)" % idx0,
+                "RET(Result::Ok{POPPED})",
             ),
-            "POPSTATE(K0)",
-            "RET(Result::Ok{POPPED})",
-        ),
-        Seq("SW[LOC]!=0|1|2", "POPSTATE(LOC)", "RET(Result::Ok{POPPED})"),
-    )
-    check_lang(R, "pop_stack_wrap:language", "pop from stack i (0 -> line-wise stdin refill in reverse then pop; 1/2 -> never returns; other -> the stack)", d, spec, body.span)
+            Seq("SW[LOC]!=0|1|2", "POPSTATE(LOC)", "RET(Result::Ok{POPPED})"),
+        )
+
+    def pop_spec_tail():
+        # refill written as a guarded prefix, one shared pop at the end
+        g, p0 = "State::get_stack(STATE,K0)", "POPSTATE(LOC)"
+        return Alt(
+            Seq("SW[LOC]=0", g, Alt(Seq("BR[Vec::is_empty(%s)]=0" % g), Seq("BR[Vec::is_empty(%s)]=1" % g, "io::read_line_from(IN)", "ITER(REV(CHARS(%s)))" % line, Star("PUSHSTATE(K0,NUM(ELEM))"))), p0, "RET(Result::Ok{POPPED})"),
+            Seq("SW[LOC]!=0|1|2", p0, "RET(Result::Ok{POPPED})"),
+        )
+
+    check_lang_any(R, "pop_stack_wrap:language", "pop from stack i (0 -> line-wise stdin refill in reverse then pop; 1/2 -> never returns; other -> the stack)", d, [pop_spec("K0"), pop_spec_tail()], body.span)
     # (2) the terminating paths as a decision table over the stack index: which indices reach process::exit, after
     # which flushes, with which status (finite-domain evaluation of the branch conditions per index value along
     # path-precise origins; merged arms such as `1 | 2 => exit(idx - 1)` give the same table)
